@@ -1,4 +1,4 @@
-From GV Require Import Common.Outcome C14.Model C14.Schema_gen C14.Spec C14.Proofs.
+From GV Require Import Common.Outcome C14.Model C14.Schema_gen C14.Spec C14.Proofs C14.LimitProofs.
 
 Theorem C14_codec_roundtrip : codec_roundtrip_stmt.
 Proof. exact codec_roundtrip. Qed.
@@ -31,3 +31,23 @@ Print Assumptions C14_grammar_reconstitute.
 Theorem C14_table_reconstitute : table_reconstitute_stmt.
 Proof. exact table_reconstitute. Qed.
 Print Assumptions C14_table_reconstitute.
+
+Theorem C14_decode_limited_exact : decode_limited_exact_stmt.
+Proof. exact decode_limited_exact. Qed.
+Print Assumptions C14_decode_limited_exact.
+
+Theorem C14_decode_limited_agrees_below_limit : decode_limited_agrees_below_limit_stmt.
+Proof. exact decode_limited_agrees_below_limit. Qed.
+Print Assumptions C14_decode_limited_agrees_below_limit.
+
+Theorem C14_codec_roundtrip_within_limit : codec_roundtrip_within_limit_stmt.
+Proof. exact codec_roundtrip_within_limit. Qed.
+Print Assumptions C14_codec_roundtrip_within_limit.
+
+Theorem C14_codec_roundtrip_limited_refuted : codec_roundtrip_limited_refuted_stmt.
+Proof. exact codec_roundtrip_limited_refuted. Qed.
+Print Assumptions C14_codec_roundtrip_limited_refuted.
+
+Theorem C14_limited_build_fails_iff : limited_build_fails_iff_stmt.
+Proof. exact limited_build_fails_iff. Qed.
+Print Assumptions C14_limited_build_fails_iff.
